@@ -1149,6 +1149,10 @@ class Interp:
             return self.setattr(base.val, name, v)
         if base is None:
             raise PyRaise(ExcVal(AttributeError))
+        if isinstance(base, type) and issubclass(base, BaseException):
+            # attributes stored on an exception CLASS (cssutils' error handler does this): kept as ghost class state
+            self.p.ghost.setdefault('class_attrs', {})[(base, name)] = v
+            return
         gm = self.p.engine.models.get(('setattr', id(base), name)) or self.p.engine.models.get(('setattr', getattr(base, '__name__', None), name))
         if gm is not None:
             return gm.fn(self, [base, name, v], {})
